@@ -8,6 +8,8 @@ import (
 	"path/filepath"
 	"sort"
 	"strings"
+	"sync/atomic"
+	"time"
 
 	"github.com/onflow/atree"
 )
@@ -35,6 +37,47 @@ func (w *W) L(format string, args ...any) {
 	fmt.Fprintf(w.bw, format, args...)
 	w.bw.WriteByte('\n')
 	w.Lines++
+	curW.Store(w)
+	progress()
+}
+
+// Watchdog state: the last moment the running stream made progress (wrote a trace line, counted a
+// branch, created its statistics), and the objects needed to report where it got stuck.
+var (
+	lastProgress atomic.Int64
+	curW         atomic.Pointer[W]
+	curStats     atomic.Pointer[Stats]
+)
+
+func progress() { lastProgress.Store(time.Now().UnixNano()) }
+
+// StartWatchdog makes the process report a violation and exit when the stream makes no progress
+// for `limit`: the library did not return from a call (or crawls).  The violation carries the trace
+// position, so the replay file shows the history up to the call that never returned.  Property "*":
+// a call that does not return fails whatever property the stream was run for.
+func StartWatchdog(limit time.Duration) {
+	progress()
+	go func() {
+		for {
+			time.Sleep(time.Second)
+			if time.Duration(time.Now().UnixNano()-lastProgress.Load()) < limit {
+				continue
+			}
+			st := curStats.Load()
+			if st == nil {
+				st = NewStats("?", 0)
+			}
+			v := Violation{Property: "*", Stream: st.Stream, Seed: st.Seed, Program: st.Programs,
+				What: fmt.Sprintf("the library did not return: no progress of stream %s for %v", st.Stream, limit)}
+			if w := curW.Load(); w != nil {
+				w.bw.Flush()
+				v.Trace, v.Line = w.Path, w.Lines
+			}
+			st.Violations = append(st.Violations, v)
+			st.Emit()
+			os.Exit(3)
+		}
+	}()
 }
 
 func (w *W) Close() {
@@ -73,10 +116,13 @@ type Stats struct {
 }
 
 func NewStats(stream string, seed int64) *Stats {
-	return &Stats{Stream: stream, Seed: seed, Dist: map[string]int{}}
+	st := &Stats{Stream: stream, Seed: seed, Dist: map[string]int{}}
+	curStats.Store(st)
+	progress()
+	return st
 }
 
-func (s *Stats) Hit(tag string) { s.Dist[tag]++ }
+func (s *Stats) Hit(tag string) { s.Dist[tag]++; progress() }
 
 func (s *Stats) Emit() {
 	b, _ := json.Marshal(s)
